@@ -181,7 +181,7 @@ def construct(cls, args, kw):
             if a.converter is not None: v = call(a.converter, [v], {})
             o.f[a.name] = v
         for a in fields:
-            if a.validator is not None: validate(a.validator, o, a, o.f[a.name])
+            if a.validator is not None and a.init: validate(a.validator, o, a, o.f[a.name])
         if hasattr(cls, '__attrs_post_init__'): call(cls.__attrs_post_init__, [o], {})
         return o
     raise NotImplementedError(cls)
@@ -200,6 +200,9 @@ def validate(v, o, a, val):
 def call(f, args, kw):
     if f in MODELS: return MODELS[f](*args, **kw)
     if isinstance(f, type) and (attr.has(f) or issubclass(f, (enum.Enum, BaseException))): return construct(f, args, kw)
+    def _conc(x): return not isinstance(x, (SInt, SBool, SSeq, SObj, SEnum, SEnumValue, BoundSym))
+    if isinstance(f, types.MethodType) and isinstance(f.__self__, type) and all(_conc(x) for x in list(args) + list(kw.values())):
+        return f(*args, **kw)            # closed term: evaluated by CPython itself
     if isinstance(f, types.MethodType):
         args = [f.__self__] + list(args); f = f.__func__
     if isinstance(f, BoundSym): return call(f.fn, [f.obj] + list(args), kw)
